@@ -487,8 +487,8 @@ func Exec(b *rosmar.Bucket, c *rosmar.Collection, o *Op) (res Result) {
 		res.HasCas = true
 		res.CasOut, err = c.WriteSubDoc(ctx, o.Key, o.Path, o.Cas, body)
 	case KSubInsert:
-		var v any
-		if uerr := json.Unmarshal(body, &v); uerr != nil {
+		var v any = json.RawMessage(body) // handed over verbatim: the harness must not round numbers itself
+		if !json.Valid(body) {
 			v = string(body)
 		}
 		err = c.SubdocInsert(ctx, o.Key, o.Path, o.Cas, v)
